@@ -283,7 +283,7 @@ def run(repo, res, tier):
             mx = -1
             mx_line = -1
             for i, tg, rec in idx:
-                line = getattr(rec.origin, "lineno", 0)
+                line = (getattr(rec.origin, "lineno", 0), getattr(rec, "unroll", 0))
                 if i < mx and line != mx_line:
                     bad = (tg, rec)
                     break
@@ -316,4 +316,6 @@ def run(repo, res, tier):
         else:
             origin, construct, message, qn, inst = first_bad
             res.bad("X-NAME", inst, Finding("X-NAME", mod, origin, construct, message + " (in none of the %d contexts this builder is used in)" % len(insts), qualname=qn))
+    if w.unresolved:
+        raise AnalysisError("the writer model could not interpret what is appended at: %s" % "; ".join("%s:%d %s" % (f, ln, t) for f, t, ln in w.unresolved[:5]))
     return {"schema_types": len(xsd.types), "state_fields": len(cx.state_fields)}
